@@ -314,11 +314,21 @@ fn arb_cell(tame: bool) -> BoxedStrategy<Option<GVal>> {
     let nested_only = nested.prop_filter_map("collection", |v| if matches!(v, GVal::Arr(_) | GVal::Obj(_)) { Some(v) } else { None });
     // a cell larger than any plausible output buffer (4 KiB, 8 KiB)
     let big = (4100usize..9500, prop::sample::select(vec!["x", "ab", "q\"", "y,"])).prop_map(|(n, u)| Some(GVal::Str(u.repeat(n / u.len()))));
+    // nested values whose JSON text is several hundred bytes to a few KiB (size thresholds of
+    // reused buffers), followed in the same run by ordinary ones
+    let big_nested = (40usize..400, any::<bool>()).prop_map(|(n, obj)| {
+        if obj {
+            Some(GVal::Obj((0..n).map(|i| (format!("k{}", i), GVal::Num(Dec::int(i as i128)))).collect()))
+        } else {
+            Some(GVal::Arr((0..n).map(|i| GVal::Num(Dec::int(1000 + i as i128))).collect()))
+        }
+    });
     prop_oneof![
         6 => Just(None),
         24 => leaf.prop_map(Some),
         8 => nested_only.prop_map(Some),
         1 => big,
+        1 => big_nested,
     ]
     .boxed()
 }
